@@ -23,6 +23,19 @@ type zzChunkReader struct {
 
 var zzIOErr = errors.New("disk on fire")
 
+// zzWrapEOF: a source failure whose error chain contains io.EOF (what os/fs and many wrappers
+// produce); it is a failure, not the end of the input.
+type zzWrapEOF struct{}
+
+func (zzWrapEOF) Error() string { return "read failed: EOF" }
+func (zzWrapEOF) Unwrap() error { return io.EOF }
+
+var zzIOErrs = []error{zzIOErr, io.ErrUnexpectedEOF, zzWrapEOF{}}
+
+// zzPickIOErr: the kind of error a failing source returns: an opaque error, the sentinel
+// io.ErrUnexpectedEOF (truncated gzip/flate streams, io.ReadFull), or an error wrapping io.EOF.
+func zzPickIOErr() error { return zzIOErrs[zz.NondetChoice("ioErrKind", zz.Param("ERRKINDS", 3))] }
+
 func (r *zzChunkReader) Read(p []byte) (int, error) {
 	r.reads++
 	if r.failAt >= 0 && r.pos >= r.failAt {
